@@ -605,6 +605,9 @@ def c10(ctx, rep):
         tag = ''
         R = rep.rule('C10.R1', 'units: relational invariant P~d d c, A~e d, q~d c, b~e, dinv=1/d, einv=1/e (inductive over one Ruiz iteration, cost scaling, rectification)')
         R.guard(lambda: equilibrate_invariant(R, ctx, cfg, tag))
+        # the change of variables stays exact when the data are updated in place: every update form re-applies D, E, c
+        R2 = rep.rule('C10.R8', 'units: every in-place update form keeps the internal data equal to the scaled user data')
+        R2.guard(lambda: update_forms(R2, ctx, cfg, tag))
 
 
 def c19(ctx, rep):
